@@ -44,7 +44,7 @@ try:
                         capture_output=True, text=True, cwd=tmp)
     out["demo_with_change"] = d1.returncode
     out["demo_clean"] = d0.returncode
-    c = subprocess.run(["/verif/check", prop, "--tier", tier], env=dict(os.environ, VERIF_REPO=dst), capture_output=True, text=True)
+    c = subprocess.run([os.path.join(os.path.dirname(os.path.dirname(os.path.abspath(__file__))), "check"), prop, "--tier", tier], env=dict(os.environ, VERIF_REPO=dst), capture_output=True, text=True)
     lines = [l for l in (c.stdout + c.stderr).splitlines() if l.startswith("VIOLATION") or l.startswith("[") or l.startswith("INFRA")]
     out["check_exit"] = c.returncode
     out["check"] = lines[-2:]
